@@ -1118,6 +1118,35 @@ def r20_4(ctx: Ctx, rep: Report, sl: Set[Func]) -> None:
                     if isinstance(x, ast.Call) and isinstance(x.func, ast.Attribute) and x.func.attr in ("append", "extend", "insert", "remove", "pop", "clear") and src(x.func.value) in names:
                         rep.instance()
                         rep.violation(f.qualname, snippet(x), f"the loop changes the length of `{src(x.func.value)}` while iterating it: elements are skipped or the loop never ends", where(f, x))
+    # an assignment to the variable of a `for` loop that reaches the loop head again without having been read is lost:
+    # code that relies on it to skip ahead re-visits the same elements (with recursion in the body: exponentially often)
+    for f in sorted(sl, key=lambda x: x.qualname):
+        cfg = ctx.cfg(f)
+        for lp in [n for n in cfg.live if n.kind == "for"]:
+            tnames = {x.id for x in ast.walk(lp.ast.target) if isinstance(x, ast.Name)}
+            inside = {id(x) for b in lp.ast.body for x in ast.walk(b)}
+            for nd in cfg.live:
+                if nd.kind != "stmt" or nd.ast is None or id(nd.ast) not in inside:
+                    continue
+                stored = {x.id for x in ast.walk(nd.ast) if isinstance(x, ast.Name) and isinstance(x.ctx, ast.Store)} & tnames
+                # only direct children loops: skip stores that belong to a nested loop's own target
+                if not stored or isinstance(nd.ast, (ast.For,)):
+                    continue
+                for v in sorted(stored):
+                    rep.instance()
+
+                    def uses(m: Node, v=v) -> bool:
+                        if m.ast is None or m is nd:
+                            return False
+                        root = m.ast.iter if m.kind == "for" else m.ast
+                        return any(isinstance(x, ast.Name) and x.id == v and isinstance(x.ctx, ast.Load) for x in ast.walk(root))
+
+                    succ = [s_ for lab, s_ in nd.succ if lab != "exc"]
+                    lost = bool(succ) and (lp is succ[0] or lp in cfg.reachable(succ[0], avoid=lambda m: m is not lp and uses(m), labels_avoid=("exc",))) and (succ[0] is lp or not uses(succ[0]))
+                    if lost:
+                        rep.violation(f.qualname, f"{snippet(nd.ast, 60)} inside `for {src(lp.ast.target)} in {snippet(lp.ast.iter, 30)}`", f"the value stored in the loop variable `{v}` can reach the next iteration unread, where `for` overwrites it: a skip-ahead that relies on it does not happen and the same lines are processed again (with the recursive call in this loop the work doubles per nesting level)", where(f, nd.ast), inp="a configuration with 20 nested indentation levels: acls() does not return")
+                    else:
+                        rep.ok(f"{f.qualname}: {snippet(nd.ast, 50)}", f"the stored `{v}` is read (or the loop is left) before the next iteration", nontrivial=False, where=where(f, nd.ast))
     rep.instance()
     rep.ok("for loops in the slice", "none mutates the sequence it iterates", nontrivial=False)
 
@@ -1348,9 +1377,13 @@ def r20_9(ctx: Ctx, rep: Report, sl: Set[Func]) -> None:
         OUT: Dict[Node, Optional[Set[str]]] = {nd: None for nd in cfg.live}
         OUTX: Dict[Node, Optional[Set[str]]] = {nd: None for nd in nonempty_loops}
 
+        INS: Dict[Node, Optional[Set[str]]] = {nd: None for nd in cfg.live}
+
         def state_on_edge(p: Node, lab: str) -> Optional[Set[str]]:
             if lab == "exit" and p in nonempty_loops:
                 return OUTX.get(p)
+            if lab == "exc":
+                return INS.get(p)  # the statement raised: what it would have bound is not bound
             return OUT.get(p)
 
         changed = True
@@ -1367,6 +1400,9 @@ def r20_9(ctx: Ctx, rep: Report, sl: Set[Func]) -> None:
                     ins = set(params)
                 if ins is None:
                     continue
+                if INS[nd] != ins:
+                    INS[nd] = set(ins)
+                    changed = True
                 new = ins | binds(nd)
                 if OUT[nd] != new:
                     OUT[nd] = new
@@ -1407,6 +1443,206 @@ def r20_9(ctx: Ctx, rep: Report, sl: Set[Func]) -> None:
     rep.floor(50, "functions examined for definite assignment")
 
 
+def r20_10(ctx: Ctx, rep: Report) -> None:
+    """Attributes are assigned before they are read while an object is being constructed: a getter or an error message
+    evaluated inside the first `self.line = ...` of a constructor sees only what __init__ has stored so far; reading
+    anything else raises AttributeError (not a documented error)."""
+    rep.rule("R20.10")
+    n_cls = 0
+    for cn in ENTRY_CLASSES:
+        cls = ctx.cls(cn)
+        init = cls.lookup_method("__init__")
+        if init is None:
+            continue
+        n_cls += 1
+        inst_attrs: Set[str] = set()
+        class_level: Set[str] = set()
+        for c in cls.mro:
+            for st in c.node.body:
+                if isinstance(st, (ast.Assign, ast.AnnAssign)):
+                    tg = st.targets[0] if isinstance(st, ast.Assign) else st.target
+                    if isinstance(tg, ast.Name) and (isinstance(st, ast.Assign) or st.value is not None):
+                        class_level.add(tg.id)
+            for g in c.all_funcs():
+                for x in own_nodes(g.node):
+                    if isinstance(x, ast.Attribute) and isinstance(x.ctx, ast.Store) and isinstance(x.value, ast.Name) and x.value.id == "self":
+                        if cls.lookup_setter(x.attr) is None and cls.lookup_getter(x.attr) is None:
+                            inst_attrs.add(x.attr)
+        inst_attrs -= class_level
+        found: Dict[Tuple[str, str], Tuple[Func, ast.AST]] = {}
+        memo: Dict[Tuple[int, frozenset], Optional[Set[str]]] = {}
+        busy: Set[Tuple[int, frozenset]] = set()
+
+        def analyse(f: Func, cur: Set[str], depth: int = 0) -> Optional[Set[str]]:
+            """Must-set of instance attributes after a normal return of f entered with `cur` assigned (None: never returns)."""
+            key = (id(f), frozenset(cur))
+            if key in memo:
+                return memo[key]
+            if key in busy or depth > 12:
+                return set(cur)
+            busy.add(key)
+            cfg = ctx.cfg(f)
+            self_name = f.params[0] if f.params and f.cls is not None and f.kind != "staticmethod" else None
+            INS: Dict[Node, Optional[Set[str]]] = {nd: None for nd in cfg.live}
+            OUT: Dict[Node, Optional[Set[str]]] = {nd: None for nd in cfg.live}
+
+            def transfer(nd: Node, state: Set[str]) -> Optional[Set[str]]:
+                if nd.ast is None or self_name is None or nd.kind not in ("stmt", "cond", "for"):
+                    return state
+                st_ = set(state)
+                root = nd.ast.iter if nd.kind == "for" else nd.ast
+                # evaluation order inside one statement: the value is evaluated before the targets are bound
+                loads = []
+                stores = []
+                calls = []
+                calls_by_name: Dict[str, ast.Call] = {}
+                for x in _scope_loads_all(root):
+                    if isinstance(x, ast.Attribute) and isinstance(x.value, ast.Name) and x.value.id == self_name:
+                        if isinstance(x.ctx, ast.Load):
+                            par = getattr(x, "_parent", None)
+                            if isinstance(par, ast.Call) and par.func is x:
+                                calls.append((x.attr, par))
+                                calls_by_name[x.attr] = par
+                            else:
+                                loads.append(x)
+                        elif isinstance(x.ctx, ast.Store):
+                            stores.append(x)
+                    if isinstance(x, ast.Call) and isinstance(x.func, ast.Attribute) and isinstance(x.func.value, ast.Call) and src(x.func.value.func) == "super" and f.cls in cls.mro:
+                        for c in cls.mro[cls.mro.index(f.cls) + 1 :]:
+                            if x.func.attr in c.methods:
+                                calls.append(("super:" + x.func.attr, c.methods[x.func.attr]))
+                                calls_by_name["super:" + x.func.attr] = x
+                                break
+                    if isinstance(x, ast.Call) and isinstance(x.func, ast.Attribute) and isinstance(x.func.value, ast.Name) and x.func.value.id in ctx.prog.classes and x.args and src(x.args[0]) == self_name:
+                        m_ = ctx.prog.classes[x.func.value.id].lookup_method(x.func.attr)
+                        if m_ is not None:
+                            calls.append(("cls:" + x.func.attr, m_))
+                            calls_by_name["cls:" + x.func.attr] = x
+                for x in loads:
+                    g = cls.lookup_getter(x.attr)
+                    if g is not None:
+                        r_ = analyse(g, st_, depth + 1)
+                        if r_ is None:
+                            return None
+                    elif x.attr in inst_attrs and x.attr not in st_:
+                        found.setdefault((f.qualname, x.attr), (f, x))
+                for name, what in calls:
+                    m_ = what if isinstance(what, Func) else cls.lookup_method(name)
+                    if m_ is None or m_ is f:
+                        continue
+                    arg = {t for t in st_ if not t.startswith("$")}
+                    call = what if isinstance(what, ast.Call) else calls_by_name.get(name)
+                    if call is not None and not any(isinstance(a, ast.Starred) for a in call.args) and not any(k.arg is None for k in call.keywords):
+                        # parameters the call leaves at a None/empty default are falsy inside the callee
+                        fa = m_.node.args
+                        pos = fa.posonlyargs + fa.args
+                        given = len(call.args) + (1 if name.startswith(("super:",)) or not name.startswith("cls:") else 0)
+                        kw = {k.arg for k in call.keywords}
+                        for i_, a_ in enumerate(pos):
+                            d_i = i_ - (len(pos) - len(fa.defaults))
+                            if i_ >= given and a_.arg not in kw and d_i >= 0:
+                                d_ = fa.defaults[d_i]
+                                if (isinstance(d_, ast.Constant) and not d_.value) or _is_empty_literal(d_):
+                                    arg.add("$empty:" + a_.arg)
+                    r_ = analyse(m_, arg, depth + 1)
+                    if r_ is None:
+                        return None
+                    st_ |= {t for t in r_ if not t.startswith("$")}
+                for x in stores:
+                    stt = cls.lookup_setter(x.attr)
+                    if stt is not None and stt is not f:
+                        arg = {t for t in st_ if not t.startswith("$")}
+                        par = getattr(x, "_parent", None)
+                        if isinstance(par, (ast.Assign, ast.AnnAssign)) and _is_empty_literal(par.value) and len(stt.params) == 2:
+                            arg.add("$empty:" + stt.params[1])  # the setter runs on an empty value: its loops over it do not
+                            if isinstance(par.value, ast.List):
+                                arg.add("$list:" + stt.params[1])
+                        r_ = analyse(stt, arg, depth + 1)
+                        if r_ is None:
+                            return None
+                        st_ |= {t for t in r_ if not t.startswith("$")}
+                    else:
+                        st_.add(x.attr)
+                for x in _scope_loads_all(nd.ast.target if nd.kind == "for" else root):
+                    if isinstance(x, ast.Name) and isinstance(x.ctx, ast.Store):
+                        st_.discard("$empty:" + x.id)
+                        st_.discard("$list:" + x.id)
+                return st_
+
+            def dead(p: Node, lab: str) -> bool:
+                """An edge that cannot be taken because the value of a parameter is known to be an empty list."""
+                st_ = OUT.get(p)
+                if not st_ or p.ast is None:
+                    return False
+                if p.kind == "for" and lab == "body":
+                    return isinstance(p.ast.iter, ast.Name) and "$empty:" + p.ast.iter.id in st_
+                if p.kind == "cond" and lab in ("T", "F"):
+                    t = p.ast
+                    if isinstance(t, ast.Name) and "$empty:" + t.id in st_:
+                        return lab == "T"
+                    if isinstance(t, ast.Call) and src(t.func) == "isinstance" and len(t.args) == 2 and isinstance(t.args[0], ast.Name) and "$list:" + t.args[0].id in st_:
+                        names = [src(e) for e in (t.args[1].elts if isinstance(t.args[1], ast.Tuple) else [t.args[1]])]
+                        if not all(nm in ctx.prog.classes or nm in ("str", "int", "dict", "list", "tuple", "bool", "float", "bytes", "set") for nm in names):
+                            return False
+                        return lab == ("F" if "list" in names else "T")
+                return False
+
+            changed = True
+            it = 0
+            while changed and it < 40:
+                changed = False
+                it += 1
+                for nd in cfg.live:
+                    ins: Optional[Set[str]] = None
+                    for lab, p in nd.pred:
+                        st_ = INS.get(p) if lab == "exc" else OUT.get(p)
+                        if st_ is None or dead(p, lab):
+                            continue
+                        ins = set(st_) if ins is None else ins & st_
+                    if nd is cfg.entry:
+                        ins = set(cur)
+                    if ins is None:
+                        continue
+                    if INS[nd] != ins:
+                        INS[nd] = set(ins)
+                        changed = True
+                    new = transfer(nd, ins)
+                    if new is None:
+                        continue
+                    if OUT[nd] != new:
+                        OUT[nd] = new
+                        changed = True
+            res = OUT.get(cfg.exit)
+            busy.discard(key)
+            memo[key] = res
+            return res
+
+        analyse(init, set())
+        rep.instance()
+        if found:
+            for (q, attr), (f, x) in sorted(found.items()):
+                rep.violation(q, f"self.{attr} read while {cn} is being constructed", f"`self.{attr}` can be read before any statement of the constructor chain has assigned it (the read is reached from {cn}.__init__): AttributeError, which no constructor documents, escapes", where(f, x), inp=f'{cn}(<a text that reaches this statement>)')
+        else:
+            rep.ok(f"{cn}.__init__", f"every instance attribute read during construction ({len(inst_attrs)} attributes) was assigned before", where=where(init))
+    rep.floor(8, "constructors")
+
+
+def _is_empty_literal(e: Optional[ast.AST]) -> bool:
+    return isinstance(e, (ast.List, ast.Tuple)) and not e.elts
+
+
+def _scope_loads_all(root: ast.AST):
+    """All nodes evaluated in the enclosing function's scope when `root` runs (nested defs/lambdas skipped; only the first
+    iterable of a comprehension is ours - its element expression runs in the comprehension's scope but still reads self)."""
+    stack = [root]
+    while stack:
+        x = stack.pop()
+        if isinstance(x, (ast.FunctionDef, ast.AsyncFunctionDef, ast.Lambda, ast.ClassDef)):
+            continue
+        yield x
+        stack.extend(ast.iter_child_nodes(x))
+
+
 def run(ctx: Ctx, rep: Report, tier: str) -> None:
     entries, sl = slice_funcs(ctx)
     r20_1a(ctx, rep, entries)
@@ -1416,6 +1652,7 @@ def run(ctx: Ctx, rep: Report, tier: str) -> None:
     r20_5(ctx, rep, sl)
     r20_6(ctx, rep)
     r20_9(ctx, rep, sl)
+    r20_10(ctx, rep)
     # R20.7: what a constructor stores renders text it accepts again — structural parts decided elsewhere
     from .c06 import normaliser_fixed_point
     from .c08 import validated_is_returned
